@@ -745,3 +745,6 @@ def run(ctx):
     c08.r13_argument_validators_mean_what_they_say(ctx, "C12.R15")
     r16_numeric_types_are_interchangeable_at_run_time(ctx)
     r17_for_checks_every_bound_and_the_step(ctx)
+    # the checker and the run time agree on which element a name denotes only if neither tells spellings apart
+    from . import c09
+    c09.r18_no_container_keyed_by_raw_text(ctx, "C12.R18")
